@@ -52,6 +52,18 @@ SelectSpec.vos SelectSpec.vok SelectSpec.required_vos: SelectSpec.v Graph.vos Gr
 Terms.vo Terms.glob Terms.v.beautified Terms.required_vo: Terms.v Graph.vo Sched.vo Dataflow.vo
 Terms.vio: Terms.v Graph.vio Sched.vio Dataflow.vio
 Terms.vos Terms.vok Terms.required_vos: Terms.v Graph.vos Sched.vos Dataflow.vos
+Iso.vo Iso.glob Iso.v.beautified Iso.required_vo: Iso.v Graph.vo Sched.vo Dataflow.vo
+Iso.vio: Iso.v Graph.vio Sched.vio Dataflow.vio
+Iso.vos Iso.vok Iso.required_vos: Iso.v Graph.vos Sched.vos Dataflow.vos
+IsoCheck.vo IsoCheck.glob IsoCheck.v.beautified IsoCheck.required_vo: IsoCheck.v Graph.vo Sched.vo Dataflow.vo Terms.vo
+IsoCheck.vio: IsoCheck.v Graph.vio Sched.vio Dataflow.vio Terms.vio
+IsoCheck.vos IsoCheck.vok IsoCheck.required_vos: IsoCheck.v Graph.vos Sched.vos Dataflow.vos Terms.vos
+IsoFacts.vo IsoFacts.glob IsoFacts.v.beautified IsoFacts.required_vo: IsoFacts.v Graph.vo GraphFacts.vo Sched.vo SchedInv.vo Dataflow.vo DataflowFacts.vo Iso.vo
+IsoFacts.vio: IsoFacts.v Graph.vio GraphFacts.vio Sched.vio SchedInv.vio Dataflow.vio DataflowFacts.vio Iso.vio
+IsoFacts.vos IsoFacts.vok IsoFacts.required_vos: IsoFacts.v Graph.vos GraphFacts.vos Sched.vos SchedInv.vos Dataflow.vos DataflowFacts.vos Iso.vos
+Compose.vo Compose.glob Compose.v.beautified Compose.required_vo: Compose.v Graph.vo
+Compose.vio: Compose.v Graph.vio
+Compose.vos Compose.vok Compose.required_vos: Compose.v Graph.vos
 History.vo History.glob History.v.beautified History.required_vo: History.v Graph.vo Select.vo
 History.vio: History.v Graph.vio Select.vio
 History.vos History.vok History.required_vos: History.v Graph.vos Select.vos
@@ -109,3 +121,6 @@ Properties/C15.vos Properties/C15.vok Properties/C15.required_vos: Properties/C1
 Properties/C18.vo Properties/C18.glob Properties/C18.v.beautified Properties/C18.required_vo: Properties/C18.v Graph.vo Select.vo SelectFacts.vo History.vo HistoryFacts.vo
 Properties/C18.vio: Properties/C18.v Graph.vio Select.vio SelectFacts.vio History.vio HistoryFacts.vio
 Properties/C18.vos Properties/C18.vok Properties/C18.required_vos: Properties/C18.v Graph.vos Select.vos SelectFacts.vos History.vos HistoryFacts.vos
+Properties/C20.vo Properties/C20.glob Properties/C20.v.beautified Properties/C20.required_vo: Properties/C20.v Graph.vo Sched.vo SchedInv.vo Dataflow.vo DataflowFacts.vo Iso.vo IsoFacts.vo
+Properties/C20.vio: Properties/C20.v Graph.vio Sched.vio SchedInv.vio Dataflow.vio DataflowFacts.vio Iso.vio IsoFacts.vio
+Properties/C20.vos Properties/C20.vok Properties/C20.required_vos: Properties/C20.v Graph.vos Sched.vos SchedInv.vos Dataflow.vos DataflowFacts.vos Iso.vos IsoFacts.vos
